@@ -7,7 +7,7 @@ import (
 
 const binPkg = "go.uber.org/thriftrw/protocol/binary"
 
-var pkgBinary = PkgDef{Path: binPkg, Dir: "protocol/binary", Name: "binary", Files: []string{"protocol_binary/zz_common.go", "protocol_binary/zz_h03.go", "protocol_binary/zz_h02.go", "protocol_binary/zz_h12.go"}}
+var pkgBinary = PkgDef{Path: binPkg, Dir: "protocol/binary", Name: "binary", Files: []string{"protocol_binary/zz_common.go", "protocol_binary/zz_h03.go", "protocol_binary/zz_h02.go", "protocol_binary/zz_h12.go", "protocol_binary/zz_h13.go"}}
 
 var commonAssume = []string{
 	"A1 sequential execution (no goroutines)",
@@ -20,7 +20,7 @@ var commonAssume = []string{
 }
 
 func allChecks() []*CheckDef {
-	return []*CheckDef{checkC02(), checkC03(), checkC12()}
+	return []*CheckDef{checkC02(), checkC03(), checkC12(), checkC13()}
 }
 
 func checkC03() *CheckDef {
@@ -122,6 +122,58 @@ func checkC12() *CheckDef {
 				"classification_input_bytes_max": b.n, "readers": fmt.Sprintf("seekable bytes.Reader; one-shot non-seekable; non-seekable whose first %d reads return every possible count (>=1 byte, plus one zero-length read) and later reads are maximal", b.free),
 				"echo_name_len": fmt.Sprintf("1..%d", b.lc),
 				"outside":       "names longer than the bound (up to 2^16 in the property), legacy names >= 16 MB, negative message types, internal/envelope client/server and multiplex wrappers (see h12d when present)",
+			}
+		},
+		Assume: commonAssume,
+	}
+}
+
+const k0Alloc = 1<<20 + 4096
+
+func allocLimit(params map[string]int) (uint64, uint64) {
+	n := params["n"]
+	if n == 0 {
+		n = 64
+	}
+	return uint64(k0Alloc + 128*n), uint64(2*k0Alloc + 256*n)
+}
+
+func checkC13() *CheckDef {
+	type bnd struct{ n, depth, budget, k, bin int }
+	bounds := func(tier string) bnd {
+		if tier == "thorough" {
+			return bnd{n: 11, depth: 3, budget: 4, k: 2, bin: 2}
+		}
+		return bnd{n: 8, depth: 2, budget: 2, k: 1, bin: 1}
+	}
+	return &CheckDef{
+		ID:   "C13",
+		Pkgs: []PkgDef{pkgBinary},
+		Harnesses: func(tier string) []*sym.HarnessConfig {
+			b := bounds(tier)
+			var out []*sym.HarnessConfig
+			for api := 0; api <= 9; api++ {
+				for n := 0; n <= b.n; n++ {
+					out = append(out, &sym.HarnessConfig{Name: "h13a", Pkg: binPkg, Params: map[string]int{"n": n, "api": api},
+						Budget: 300000 + 30000*n, BigLim: b.n + 2, BudgetIsViolation: true, AllocLimit: allocLimit})
+				}
+			}
+			for api := 0; api <= 4; api++ {
+				out = append(out, &sym.HarnessConfig{Name: "h13b", Pkg: binPkg, Params: map[string]int{"api": api, "depth": b.depth, "budget": b.budget, "k": b.k, "bin": b.bin},
+					Budget: 2000000, BigLim: 48, BudgetIsViolation: true, AllocLimit: allocLimit})
+			}
+			out = append(out, &sym.HarnessConfig{Name: "h13_witness", Pkg: binPkg, Params: map[string]int{"n": 2, "api": 0}, ExpectViolation: true})
+			return out
+		},
+		Bounds: func(tier string) map[string]interface{} {
+			b := bounds(tier)
+			return map[string]interface{}{
+				"arbitrary_message_bytes_max": b.n,
+				"apis":                        "Decode+force, stream decode (seekable/non-seekable), Skip (both), DecodeEnveloped, ReadEnvelopeBegin, DecodeRequest, ReadRequest (both)",
+				"length_field_templates":      map[string]int{"depth": b.depth, "nodes": b.budget, "container_len": b.k, "binary_len": b.bin},
+				"alloc_bound":                 "each request <= 1MiB+4KiB+128*N bytes, path total <= 2x that",
+				"work_bound":                  "calls into the underlying reader <= 64+32*N; interpreter steps <= 300000+30000*N",
+				"outside":                     "constant factors; GC; generated-code deserializers (C13 generated part not built yet); frame reader (see h13f)",
 			}
 		},
 		Assume: commonAssume,
